@@ -67,7 +67,10 @@ Definition trunc (w : N) (v : vec) : vec := mkVec (vp v mod 2 ^ w) (vm v mod 2 ^
 (* a 1-bit result placed in a wider context: zero extended *)
 Definition one_bit (v : vec) : vec := v.
 
-Definition amount_of (v : vec) : option N := if known v then Some (vp v) else None.
+(* shift amount (always unsigned).  Amounts beyond the context width W are clamped to W: the
+   shifted-out result is the same (lemmas shift_clamp in ExprEvalProofs), and the reference stays
+   executable for 300-bit amounts *)
+Definition amount_of (W : N) (v : vec) : option N := if known v then Some (N.min (vp v) W) else None.
 Definition exponent_of (signed : bool) (w : N) (v : vec) : option Z :=
   if known v then Some (if signed then sval w (vp v) else Z.of_N (vp v)) else None.
 
@@ -140,9 +143,9 @@ Fixpoint eval (e : expr) (W : N) (S : bool) : vec :=
           let wy := selfw y in
           let b := eval y wy (sgn y) in
           match o with
-          | BShl | BAShl => s_shl W a (amount_of b)
-          | BShr => s_shr W a (amount_of b)
-          | BAShr => s_ashr S W a (amount_of b)
+          | BShl | BAShl => s_shl W a (amount_of W b)
+          | BShr => s_shr W a (amount_of W b)
+          | BAShr => s_ashr S W a (amount_of W b)
           | _ => s_pow S W a (exponent_of (sgn y) wy b)
           end
       end
